@@ -7,11 +7,11 @@ package enc
 
 //@ # cnt(s, v, i): number of extra bytes needed to escape s[0:i] (2 per byte rejected by v)
 //@ rec spec cnt(s string, v bytepred, i int) int = ite(i <= 0, 0, cnt(s, v, i-1) + ite(v(s[i-1]), 0, 2))
-//@ lemma cntMono: forall(s string, v bytepred, a int, b int, 0 <= a && a <= b ==> 0 <= cnt(s, v, a) && cnt(s, v, a) <= cnt(s, v, b)) by induction on b
+//@ lemma cntMono: forall(s string, v bytepred, a int, b int, 0 <= a && a <= b ==> 0 <= cnt(s, v, a) && cnt(s, v, a) <= cnt(s, v, b), pattern(cnt(s, v, a), cnt(s, v, b))) by induction on b
 
-//@ lemma cntBound: forall(s string, v bytepred, i int, 0 <= i ==> cnt(s, v, i) <= 2*i) by induction on i
+//@ lemma cntBound: forall(s string, v bytepred, i int, 0 <= i ==> cnt(s, v, i) <= 2*i, pattern(cnt(s, v, i))) by induction on i
 
-//@ lemma cntZero: forall(s string, v bytepred, n int, k int, 0 <= k && k < n && cnt(s, v, n) == 0 ==> v(s[k]) && cnt(s, v, k) == 0) by induction on n
+//@ lemma cntZero: forall(s string, v bytepred, n int, k int, 0 <= k && k < n && cnt(s, v, n) == 0 ==> v(s[k]) && cnt(s, v, k) == 0, pattern(cnt(s, v, n), s[k])) by induction on n
 //@ # the encoding of byte k ends before the encoding of byte i starts (k < i)
 //@ lemma encPos: forall(s string, v bytepred, k int, i int, 0 <= k && k < i ==> k + cnt(s, v, k) + ite(v(s[k]), 0, 2) < i + cnt(s, v, i), pattern(cnt(s, v, k), cnt(s, v, i))) by induction on i
 
@@ -19,7 +19,7 @@ package enc
 //@ # encAt(r, p, c, ok): the encoding of byte c sits at position p of r
 //@ spec encAt(r string, p int, c byte, ok bool) bool = ite(ok, r[p] == c, r[p] == '\\' && r[p+1] == hexdig(c / 16) && r[p+2] == hexdig(c % 16))
 //@ # isEsc(r, s, v): r is the escaped form of s under validity predicate v
-//@ spec isEsc(r string, s string, v bytepred) bool = len(r) == len(s) + cnt(s, v, len(s)) && forall(k, 0, len(s), encAt(r, k + cnt(s, v, k), s[k], v(s[k])))
+//@ spec isEsc(r string, s string, v bytepred) bool = len(r) == len(s) + cnt(s, v, len(s)) && forall(k, 0, len(s), encAt(r, k + cnt(s, v, k), s[k], v(s[k])), pattern(cnt(s, v, k)), pattern(v(s[k])))
 
 //@ func Escape
 //@   props C11
@@ -28,3 +28,30 @@ package enc
 //@   loop 0: invariant 0 <= i && i <= len(s) && extra == cnt(old(string(s)), valid, i)
 //@   loop 1: invariant 0 <= i && i <= len(s) && j == i + cnt(old(string(s)), valid, i) && len(buf) == len(s) + cnt(old(string(s)), valid, len(s))
 //@   loop 1: invariant forall(k, 0, i, encAt(string(buf), k + cnt(old(string(s)), valid, k), old(s[k]), valid(old(s[k]))))
+
+//@ spec ishex(b byte) bool = ('0' <= b && b <= '9') || ('a' <= b && b <= 'f') || ('A' <= b && b <= 'F')
+//@ spec hexval(b byte) int = ite(b <= '9', b - '0', ite(b >= 'a', b - 'a' + 10, b - 'A' + 10))
+//@ lemma hexInv: forall(x int, 0 <= x && x < 16 ==> ishex(hexdig(x)) && hexval(hexdig(x)) == x && hexdig(x) != '\\', pattern(hexdig(x)))
+
+//@ func unhex
+//@   props C11
+//@   ensures ok == ishex(b) && (ok ==> v == hexval(b)) && (!ok ==> v == 0)
+
+//@ # firstInv(s, v, n): index of the first byte of s[0:n] rejected by v (n if none)
+//@ rec spec firstInv(s string, v bytepred, n int) int = ite(n <= 0, 0, ite(firstInv(s, v, n-1) < n-1, firstInv(s, v, n-1), ite(v(s[n-1]), n, n-1)))
+//@ lemma firstInvRange: forall(s string, v bytepred, n int, 0 <= firstInv(s, v, n) && firstInv(s, v, n) <= n && (firstInv(s, v, n) < n ==> !v(s[firstInv(s, v, n)])), pattern(firstInv(s, v, n))) by induction on n
+//@ lemma firstInvFound: forall(s string, v bytepred, n int, cnt(s, v, n) > 0 ==> firstInv(s, v, n) < n, pattern(cnt(s, v, n))) by induction on n
+
+//@ func Unescape
+//@   props C11
+//@   overflow
+//@   behaviour safety:
+//@     loop 0: invariant 0 <= j && j <= i && i <= len(s) && len(buf) == len(s)
+//@   behaviour inverse(ghost orig string, ghost v bytepred):
+//@     requires isEsc(s, orig, v) && !v('\\')
+//@     ensures  string(result) == orig
+//@     loop 0: invariant 0 <= j && j <= len(orig) && i == j + cnt(orig, v, j) && i <= len(s) && len(buf) == len(s)
+//@     loop 0: invariant i < len(s) ==> j < len(orig)
+//@     loop 0: invariant i < len(s) ==> encAt(s, i, orig[j], v(orig[j]))
+//@     loop 0: invariant forall(k, 0, j, buf[k] == orig[k])
+//@     loop 0: invariant forall(k, j, len(s), buf[k] == s[k])
